@@ -42,6 +42,8 @@ func init() {
 			{ID: "C10-R18", Title: "shared state is enumerated (shared with C09-R18)", Floor: 1, Run: sharedStateIsEnumerated},
 			{ID: "C10-R19", Title: "a receiver answers 'nothing' only after it has received", Floor: 2, Run: receiversAskTheChannel},
 			{ID: "C10-R20", Title: "the VM installs its own context values on every path (shared with C12-R17)", Floor: 3, Run: theVMInstallsItsOwnContextValuesOnEveryPath},
+			{ID: "C10-R21", Title: "error constructors make new objects", Floor: 3, Run: errorConstructorsMakeNewObjects},
+			{ID: "C10-R22", Title: "arguments are not cut to a fixed size", Floor: 1, Run: argumentsAreNotCutToAFixedSize},
 		},
 	})
 }
